@@ -214,6 +214,37 @@ theorem file_source_spec_partial (mode : LineMode) (fs : FS) (stdin file : Str) 
     (readWcoll mode fs stdin file).1.fatal = (WcollSpec.fileHosts fs file).error :=
   file_source_spec_partial' mode fs stdin file h1 (search_path_of_plain file hp hc) hfs
 
+/-- WHAT KEEPS `file_hosts_spec_partial` PARTIAL, and why it cannot go away.
+(1) line length: only for the unchanged `fgets` reader (`fgets_splits`); for the repaired reader
+    `mode = .whole` the hypothesis is vacuous — the statement is the full one.
+(2) a line that starts with `#include` must be exactly `#include` blanks+ F blanks*, without CR:
+    forced by the code, which is more liberal than the property text — three witnesses below on a
+    two-file system (each is also run against the real pdsh by checks/c10.py, stream `malformed`,
+    where the real binary agrees with the reader side):
+    `#includeB` (no blank) is honoured by the reader; `#include B C` costs a warning;
+    `#include B<CR>` (a CRLF file) includes B although the name as written is `B<CR>`.
+    Every other line — host expressions, comments, blanks, CR included — is unrestricted.
+(3) include names must fit `fq_path[4096]` (the code truncates / fails beyond). -/
+theorem include_line_restriction_forced :
+    let fs : FS := [⟨"d/A".toList, true, "#includeB\n".toList⟩, ⟨"d/B".toList, true, "b1\n".toList⟩]
+    let fs2 : FS := [⟨"d/A".toList, true, "#include B C\n".toList⟩, ⟨"d/B".toList, true, "b1\n".toList⟩]
+    let fs3 : FS := [⟨"d/A".toList, true, "#include B\r\n".toList⟩, ⟨"d/B".toList, true, "b1\n".toList⟩]
+    -- no blank after #include: the reader includes B, the specification sees a comment
+    ((readWcoll .whole fs [] "d/A".toList).1.exprs = ["b1".toList] ∧
+      (WcollSpec.fileHosts fs "d/A".toList).exprs = []) ∧
+    -- a second token: one warning from the reader, none in the specification
+    ((readWcoll .whole fs2 [] "d/A".toList).1.nwarn = 1 ∧
+      (WcollSpec.fileHosts fs2 "d/A".toList).skipped = 0) ∧
+    -- CR before the newline: the reader includes B, the specification looks for `B<CR>` (an error)
+    ((readWcoll .whole fs3 [] "d/A".toList).1.exprs = ["b1".toList] ∧
+      (readWcoll .whole fs3 [] "d/A".toList).1.fatal = false ∧
+      (WcollSpec.fileHosts fs3 "d/A".toList).error = true) := by
+  decide
+
+/-- ... while CR in an ordinary line is inside the theorem's domain: reader and specification both
+hand `foo<CR>` to the parser (xstrcln strips blank, tab and newline only) -/
+example : LineOK "d".toList "foo\r".toList := ⟨by decide, by decide, by decide⟩
+
 /-- `get_file_path`: for every plain path (it does not end in a slash, its last slash is not
 doubled) glibc's `dirname` is the directory the specification means, and — when that directory holds
 no colon — the reader's search path is exactly that one directory -/
